@@ -409,4 +409,56 @@ theorem predictPrimitive_nonneg (g ovf : ℝ) (W : Q ℝ) (G : Grad ℝ) (a : V3
   simp only [predictPrimitive, predictPrimitiveTag]
   split_ifs <;> first | exact ⟨hd, hp⟩ | exact ⟨amax_zero_nonneg _, amax_zero_nonneg _⟩
 
+/-! ### inflow and outflow boundaries -/
+
+theorem ghostFaceFluxB_reflective (flux : FluxFn ℝ) (tiny g : ℝ) (i : Axis) (L : HV ℝ)
+    (dx A dt : ℝ) :
+    ghostFaceFluxB .reflective flux tiny g i L dx A dt = ghostFaceFlux flux tiny g i L dx A dt := rfl
+
+theorem doGhostGradientCalculationB_reflective (i : Axis) (L : HV ℝ) (dxinv : ℝ) :
+    doGhostGradientCalculationB .reflective i L dxinv = doGhostGradientCalculation i L dxinv := rfl
+
+/-- the face value of a cell whose reconstructed value is its own cell value is that value -/
+theorem limit_own_value (a b : ℝ) : limit 0 a a b 0.5 = a := by
+  rcases lt_trichotomy a b with h | h | h
+  · exact (limit_between_lt a a b h).2.2.2 (phiminusR_le a _ (by linarith)) (by linarith)
+  · rw [h, limit_self]
+  · exact (limit_between_gt a a b h).2.2.2 (by linarith) (le_phiplusR a _ (by linarith))
+
+/-- a ghost cell that is a copy of the cell (inflow boundary; outflow boundary with outgoing gas):
+both reconstructed states are the cell-centred state, whatever the gradients -/
+theorem reconstruct_copy (W g g' : Q ℝ) (dx : ℝ) (hd : 0 ≤ W.d) (hp : 0 ≤ W.e) :
+    reconstruct 0 W g W g' dx = ⟨W.d, W.v, W.e, W.d, W.v, W.e⟩ := by
+  simp only [reconstruct, limit_self, amax_zero_of_nonneg hd, amax_zero_of_nonneg hp]
+
+theorem inflow_states (i : Axis) (s : ℝ) (W g : Q ℝ) (dx : ℝ) (hd : 0 ≤ W.d) (hp : 0 ≤ W.e) :
+    let r := ghostFluxRight .inflow i s W g
+    reconstruct 0 W g r.1 r.2 dx = ⟨W.d, W.v, W.e, W.d, W.v, W.e⟩ :=
+  reconstruct_copy W g g dx hd hp
+
+theorem outflow_states_outgoing (i : Axis) (s : ℝ) (W g : Q ℝ) (dx : ℝ) (hd : 0 ≤ W.d)
+    (hp : 0 ≤ W.e) (hout : 0 ≤ s * V3'.get W.v i) :
+    let r := ghostFluxRight .outflow i s W g
+    reconstruct 0 W g r.1 r.2 dx = ⟨W.d, W.v, W.e, W.d, W.v, W.e⟩ := by
+  simp only [ghostFluxRight, lit0, if_neg (not_lt.mpr hout)]
+  exact reconstruct_copy W g g dx hd hp
+
+/-- outflow boundary with gas that moves into the box: density, pressure and the tangential
+velocities of both states are the cell values, the ghost state has exactly the reversed cell-centred
+normal velocity (its gradient is set to zero), the cell side its reconstructed one -/
+theorem outflow_states_incoming (i : Axis) (s : ℝ) (W g : Q ℝ) (dx : ℝ) (hd : 0 ≤ W.d)
+    (hp : 0 ≤ W.e) (hin : s * V3'.get W.v i < 0) :
+    let r := ghostFluxRight .outflow i s W g
+    let rc := reconstruct 0 W g r.1 r.2 dx
+    rc.rhoL = W.d ∧ rc.rhoR = W.d ∧ rc.PL = W.e ∧ rc.PR = W.e ∧
+      V3'.get rc.vR i = -(V3'.get W.v i) ∧
+      (∀ j, j ≠ i → V3'.get rc.vR j = V3'.get W.v j ∧ V3'.get rc.vL j = V3'.get W.v j) := by
+  have hin' : s * V3'.get W.v i < 0.0 := by rw [lit0]; exact hin
+  simp only [ghostFluxRight, if_pos hin']
+  cases i <;>
+    simp only [reconstruct, V3'.set, V3'.get, limit_self, amax_zero_of_nonneg hd,
+      amax_zero_of_nonneg hp, true_and] <;>
+    simp only [lit0, mul_zero, sub_zero, limit_own_value, true_and] <;>
+    (intro j hj; cases j <;> simp_all)
+
 end CMacVerif.HydroUpdate
